@@ -100,11 +100,17 @@ fn orphan_replay(parent: &[usize], hist: &[OOp]) -> (u64, Option<(String, String
     let pool = OrphanBlockPool::with_capacity(8);
     let mut r = OrphanRef { parent: parent.to_vec(), stored: BTreeSet::new() };
     let id_of: HashMap<Byte32, usize> = (0..parent.len() + 2).map(|i| (node_hash(i), i)).collect();
+    // how often a block that is still held has been inserted (capped at 2): the pool's public
+    // interface cannot show whether a repeated insert left a second copy behind, so histories that
+    // differ in this are not merged (the same block arrives again whenever a peer re-sends it)
+    let mut times: BTreeMap<usize, u8> = BTreeMap::new();
     for (step, op) in hist.iter().enumerate() {
         match *op {
             OOp::Insert(b) => {
                 pool.insert(lonely(b, parent[b - 2]));
                 r.stored.insert(b);
+                let t = times.entry(b).or_insert(0);
+                *t = (*t + 1).min(2);
             }
             OOp::Remove(x) => {
                 let was_leader = r.leaders().contains(&x);
@@ -154,7 +160,8 @@ fn orphan_replay(parent: &[usize], hist: &[OOp]) -> (u64, Option<(String, String
         }
     }
     let leaders: BTreeSet<usize> = pool.clone_leaders().iter().map(|x| id_of[x]).collect();
-    (fp(&(&r.stored, leaders, pool.len())), None)
+    times.retain(|b, _| r.stored.contains(b));
+    (fp(&(&r.stored, leaders, pool.len(), &times)), None)
 }
 
 fn orphan_family(ctx: &Ctx, report: &mut Report, only: Option<(Vec<usize>, Vec<OOp>)>) {
